@@ -417,6 +417,23 @@ func (x *Exec) checkFrame(fr *Frame, fc *FuncContract, r RetEdge, envPre *SpecEn
 			}
 		}()
 	}
+	var parts []framePart
+	defer func() {
+		if len(parts) == 0 {
+			return
+		}
+		var gs []Term
+		var labels []string
+		for _, pt := range parts {
+			gs = append(gs, pt.Goal)
+			labels = append(labels, pt.Label)
+		}
+		before := len(x.ctx.obls)
+		fr.obligation("assigns", "only-declared-locations-written", r.cond, And(gs...), "frame: only declared locations are written ("+strings.Join(labels, ", ")+")")
+		if len(x.ctx.obls) > before {
+			x.ctx.obls[len(x.ctx.obls)-1].Parts = parts
+		}
+	}()
 	for _, key := range sortedKeys(r.st.heap) {
 		now := r.st.heap[key]
 		was := x.heapGet(entry, key)
@@ -442,7 +459,9 @@ func (x *Exec) checkFrame(fr *Frame, fc *FuncContract, r RetEdge, envPre *SpecEn
 			}
 		}
 		goal := Forall([]Term{rv}, Implies(And(append([]Term{Lt(IntLit(0), rv), Lt(rv, entry.alloc)}, excl...)...), Eq(Select(now, rv), Select(was, rv))))
-		fr.obligation("assigns", "unchanged "+shortKey(key), r.cond, goal, "frame: only declared locations are written")
+		if goal.S != "true" {
+			parts = append(parts, framePart{shortKey(key), goal})
+		}
 	}
 }
 
